@@ -9,3 +9,88 @@ package profile
 //@   ensures providerName != "" ==> res != ""
 //@ interface ProfileFactory.GetAvailableProfiles
 //@ interface ProfileFactory.GetProfile
+
+// ---- C20: listing parsers. json.Unmarshal is modelled as "any well-typed value appears in the target" (every byte
+// string is covered by that); the parsers must not panic on any such value and return only named, non-nil models.
+//@ spec func namedModels(ms []*domain.ModelInfo) bool = forall i int :: 0 <= i && i < len(ms) ==> ms[i] != nil && ms[i].Name != ""
+
+//@ func createOllamaModelDetails
+//@   property C20
+//@   safety
+//@   ensures res != nil && fresh(res)
+
+//@ func (p *ollamaParser) Parse
+//@   property C20
+//@   safety
+//@   modifies *
+//@   loop 1 invariant namedModels(models)
+//@   ensures res1 == nil ==> namedModels(res0)
+//@   ensures res1 != nil ==> len(res0) == 0
+
+//@ func (p *lmStudioParser) Parse
+//@   property C20
+//@   safety
+//@   modifies *
+//@   loop 1 invariant namedModels(models)
+//@   ensures res1 == nil ==> namedModels(res0)
+//@   ensures res1 != nil ==> len(res0) == 0
+
+//@ func (p *openAIParser) Parse
+//@   property C20
+//@   safety
+//@   modifies *
+//@   loop 1 invariant namedModels(models)
+//@   ensures res1 == nil ==> namedModels(res0)
+//@   ensures res1 != nil ==> len(res0) == 0
+
+//@ func (p *lemonadeParser) Parse
+//@   property C20
+//@   safety
+//@   modifies *
+//@   loop 1 invariant namedModels(models)
+//@   ensures res1 == nil ==> namedModels(res0)
+//@   ensures res1 != nil ==> len(res0) == 0
+
+//@ func (p *llamaCppParser) Parse
+//@   property C20
+//@   safety
+//@   modifies *
+//@   loop 1 invariant namedModels(models)
+//@   ensures res1 == nil ==> namedModels(res0)
+//@   ensures res1 != nil ==> len(res0) == 0
+
+//@ func (p *sglangParser) Parse
+//@   property C20
+//@   safety
+//@   modifies *
+//@   loop 1 invariant namedModels(models)
+//@   ensures res1 == nil ==> namedModels(res0)
+//@   ensures res1 != nil ==> len(res0) == 0
+
+//@ func (p *vllmParser) Parse
+//@   property C20
+//@   safety
+//@   modifies *
+//@   loop 1 invariant namedModels(models)
+//@   ensures res1 == nil ==> namedModels(res0)
+//@   ensures res1 != nil ==> len(res0) == 0
+
+//@ func (p *vllmMLXParser) Parse
+//@   property C20
+//@   safety
+//@   modifies *
+//@   loop 1 invariant namedModels(models)
+//@   ensures res1 == nil ==> namedModels(res0)
+//@   ensures res1 != nil ==> len(res0) == 0
+
+//@ func (p *dockerModelRunnerParser) Parse
+//@   property C20
+//@   safety
+//@   modifies *
+//@   loop 1 invariant namedModels(models)
+//@   ensures res1 == nil ==> namedModels(res0)
+//@   ensures res1 != nil ==> len(res0) == 0
+
+//@ func inferFormatFromRecipe
+//@   property C20
+//@   safety
